@@ -21,8 +21,9 @@ bash writes the dumps, bash judges the result:
 
 `declare -p` lines are not "plain assignments": the filter does not look at them (documented in
 ebuild-env-utils.bash: "declares and such will slide past filter-env"); they take part as definitions that must be
-preserved and must not derail the parse, and are only generated when the variable patterns cannot select them
-(blacklist mode, non-matching name).  Associative arrays only appear as `declare -A` lines.
+preserved and must not derail the parse, and are only generated for variables the patterns do not select for
+removal (otherwise the variable is dumped as a `set` line instead).  Associative arrays only appear as `declare -A`
+lines (left out when selected for removal).
 
 On a failing case the harness isolates the root cause by re-running the filter on one-statement functions
 (rebuilt by bash) followed by sentinels; the bucket names the statement template(s) that break the parse.
@@ -90,6 +91,7 @@ LEAF = {
     "pe_pct_esc": "y=${x%\\}}",
     "pe_default_sq": ": ${x:-'}'}",
     "pe_default_dq_in_dq": ': "${x:-"}"}"',
+    "pe_sq_in_dq": "echo \"${x:-'}'}\" \"${x#'}'}\"",
     "pe_subst": 'y="${x/\\}/\\{}"',
     "pe_nested": ': "${x:-${y:-"}"}}"',
     "pe_len": "echo ${#x} $# ${#arr[@]} ${arr[*]:1:2}",
@@ -596,7 +598,8 @@ def evaluate(ctx, case, pieces, workdir, tag, record=True, isolate=True):
         causes = isolate_cause(case, pieces, workdir) if isolate else ["unisolated"]
         msg = "; ".join(f"[{k}] {m}" for k, m in problems)[:900]
         for cause in causes:
-            bucket = cause if cause.startswith("selection:") else f"parse-derailed:{cause}"
+            bucket = (cause if cause.startswith("selection:") else "wrong-output:not-isolated" if cause == "not-isolated"
+                      else f"parse-derailed:{cause}")
             reported.add(bucket)
             ctx.violation(bucket, case, msg)
     return reported
@@ -800,7 +803,7 @@ def process_batch(ctx, cases, workdir, base):
 def plan(tier, seed):
     if tier == "quick":
         return [{"task": "hyp", "examples": 150} for _ in range(16)]
-    return [{"task": "hyp", "examples": 2000} for _ in range(32)]
+    return [{"task": "hyp", "examples": 4000} for _ in range(32)]
 
 
 def run_task(ctx, task, **kw):
